@@ -105,4 +105,12 @@ def build_chain(rng, nbodies=None, closed=False, base="origin", springs=True, po
                 e = KelvinVoigtElement(tpi, kk, float(loguniform(rng, 0.1, 5)), l_ref=float(rng.uniform(0.5, 1.5)), compliance_form=bool(rng.random() < 0.5), name=f"kv{k}")
             S.add(e)
             info.setdefault("laws", []).append(["Spring:force", "Spring:compliance", "KelvinVoigt"][law])
+    rb_ = [b for b in bodies if not isinstance(b, PointMass)]
+    if springs and rb_ and rng.random() < 0.25:
+        # a pre-stressed spring between two points of ONE rigid body (an internal force pair: the points keep their distance,
+        # the two generalized forces cancel, the motion is the one without it)
+        b = rb_[int(rng.integers(len(rb_)))]
+        tpi = TwoPointInteraction(b, b, B_r_CP1=rng.normal(size=3) * 0.3, B_r_CP2=rng.normal(size=3) * 0.3)
+        S.add(Spring(tpi, float(loguniform(rng, 20, 200)), l_ref=float(rng.uniform(0.1, 0.3)), compliance_form=False, name="internal_spring"))
+        info.setdefault("laws", []).append("Spring:force(same body)")
     return S, bodies, joints, info
